@@ -760,12 +760,30 @@ func testVerifC06(t *testing.T, prop string) {
 	}
 	depthUni, depthBi := 4, 3
 	if w.thorough() {
-		depthUni, depthBi = 5, 4
+		depthUni, depthBi = 4, 4 // (uni depth 5 does not fit the thorough budget: 18 searches of ~10^8 transitions)
+	}
+	// a handful of deeper two-directional histories around the buffer swap of ReleaseReadAndReuse are always run
+	extra := [][]c06Op{
+		{{'X', 0, 1}, {'W', 1, 1}, {'r', 1, 1}, {'U', 1, 0}, {'F', 1, 0}, {'r', 0, 1}},
+		{{'X', 0, 9}, {'r', 1, 9}, {'U', 1, 0}, {'W', 1, 3}, {'F', 1, 0}, {'r', 0, 3}, {'U', 0, 0}, {'X', 0, 2}, {'r', 1, 2}},
+		{{'X', 0, 8}, {'R', 1, 3}, {'r', 1, 8}, {'U', 1, 0}, {'F', 1, 0}, {'r', 0, 3}},
 	}
 	if v := os.Getenv("VERIF_DEPTH"); v != "" {
 		fmt.Sscanf(v, "%d", &depthUni)
 	}
 	for _, cfg := range c06Configs() {
+		if w.shardI == 0 && w.replay == nil {
+			for _, h := range extra {
+				wd, ok := c06Run(cfg, h, true)
+				wd.close()
+				if ok && wd.viol != "" {
+					sig := c06Sig(wd.viol)
+					res := &vrt.Result{Name: "c06/extra", Exhaustive: true, Execs: 1, Transitions: int64(len(h)), States: 1, Outcomes: map[string]int64{}, Counts: map[string]int64{}, FailCount: map[string]int64{sig: 1}}
+					res.Failures = append(res.Failures, &vrt.Failure{Kind: "oracle", Sig: sig, Msg: fmt.Sprintf("config %s hog %d history %v: %s", cfg.Name, cfg.Hog, h, wd.viol), Params: map[string]interface{}{"cfg": cfg, "hist": h}})
+					w.out.Scenarios = append(w.out.Scenarios, &scenarioResult{Name: "c06/extra", Params: cfg, Result: res})
+				}
+			}
+		}
 		for _, bidir := range []bool{false, true} {
 			name := fmt.Sprintf("c06/%s-hog%d-bidir%v", cfg.Name, cfg.Hog, bidir)
 			if !w.mine() {
